@@ -24,8 +24,10 @@ type pathAbort struct{ Reason string }
 type boundExceeded struct{ Where string }
 
 type Decision struct {
-	C int    // choice taken
-	V uint64 // payload (value for concretisation decisions)
+	C    int    // choice taken
+	V    uint64 // payload (value for concretisation decisions)
+	S    []int  `json:",omitempty"` // POR: sleep set (thread ids) to install at this decision
+	HasS bool   `json:",omitempty"`
 }
 
 type Violation struct {
@@ -85,6 +87,8 @@ type PathRun struct {
 	nAsserts  int
 	lastNow   *Term
 	decided   map[int]bool
+	por       bool
+	sleep     map[int]bool
 }
 
 type branchKey struct {
